@@ -2,6 +2,7 @@ import Marwood.Lemmas.TotalOps
 import Marwood.Lemmas.TotalListP
 import Marwood.Lemmas.TotalLength
 import Marwood.Lemmas.TotalPrelude
+import Marwood.Lemmas.EqualTotal
 import Marwood.Lemmas.StackWFNoPanic
 import Marwood.Proofs.C07
 import Marwood.Proofs.C11
@@ -659,14 +660,15 @@ theorem eqvB_noPanic (hs : s.WF) (ha : ∀ v ∈ args, VCell.Valid s v) : Outcom
     refine noPanic_bind (eqv_noPanic hs (ha b (by simp)) (ha a (by simp))) (fun r _ => by simp)
   · simp
 
-/-- `equal?` never panics (in particular `compare_vector`'s `unwrap` is unreachable: the lengths were
-    compared first); on circular structure it diverges, see `equal_circular_diverges` -/
+/-- `equal?` (after the repair dfd9e81) never panics (in particular `compare_vector`'s `unwrap` is
+    unreachable: the lengths were compared first); it terminates on circular structure as well, see
+    `equal_total` / `equal_circular_terminates` (the pinned one did not: `equal_circular_diverges`) -/
 theorem equalB_noPanic (fuel : Nat) (hs : s.WF) (ha : ∀ v ∈ args, VCell.Valid s v) :
     Outcome.NoPanic (equalB fuel s args) := by
   unfold equalB
   split
   · rename_i a b
-    refine noPanic_bind ((equal_all_noPanic hs fuel).1 _ _ (ha b (by simp)) (ha a (by simp))) (fun r _ => by simp)
+    refine noPanic_bind (equal_noPanic hs fuel (ha b (by simp)) (ha a (by simp))) (fun r _ => by simp)
   · simp
 
 theorem isNullB_noPanic (hs : s.WF) (ha : ∀ v ∈ args, VCell.Valid s v) : Outcome.NoPanic (isNullB s args) := by
@@ -994,21 +996,21 @@ theorem length_never_diverges (hs : s.WF) {x : VCell} (hx : VCell.Valid s x) {fu
     (hf : s.cells.length + 2 ≤ fuel) : length fuel s x ≠ .diverge := by
   rcases Marwood.Store.length_total hs hx hf with ⟨_, n, h⟩ | ⟨_, h⟩ <;> rw [h] <;> simp
 
-/-- known finding `C06-circular-equal`: `equal?` on two circular lists of the same shape never
-    returns — no fuel suffices -/
-theorem equal_circular_diverges (fuel : Nat) : equalB fuel circ [.ptr 2, .ptr 1] = .diverge := by
-  have hP : ∀ f, comparePair f circ (.pair 0 1) (.pair 0 2) = .diverge := by
+/-- `C06-circular-equal` (fixed by dfd9e81): the PINNED `equal?` (`Store.Pinned.equal`, `compare.rs` before
+    the repair) on two circular lists of the same shape never returns — no fuel suffices -/
+theorem equal_circular_diverges (fuel : Nat) : Pinned.equal fuel circ (.ptr 1) (.ptr 2) = .diverge := by
+  have hP : ∀ f, Pinned.comparePair f circ (.pair 0 1) (.pair 0 2) = .diverge := by
     intro f
     induction f with
     | zero => rfl
     | succ f ih =>
-      unfold comparePair
+      unfold Pinned.comparePair
       simp only [VCell.isPair_pair, Bool.not_true, Bool.or_self, Bool.false_eq_true, if_false,
         VCell.asCar_pair, VCell.asCdr_pair, bind_ok]
       cases f with
       | zero => rfl
       | succ f' =>
-        have he : equal (f' + 1) circ (.ptr 0) (.ptr 0) = .ok true := rfl
+        have he : Pinned.equal (f' + 1) circ (.ptr 0) (.ptr 0) = .ok true := rfl
         have g1 : circ.get (.ptr 1) = .ok (.pair 0 1) := rfl
         have g2 : circ.get (.ptr 2) = .ok (.pair 0 2) := rfl
         simp only [he, bind_ok, Bool.not_true, Bool.false_eq_true, if_false, g1, g2]
@@ -1019,7 +1021,73 @@ theorem equal_circular_diverges (fuel : Nat) : equalB fuel circ [.ptr 2, .ptr 1]
     have he : eqv circ (.ptr 1) (.ptr 2) = .ok false := rfl
     have g1 : derefArg circ (.ptr 1) = .ok (.pair 0 1) := rfl
     have g2 : derefArg circ (.ptr 2) = .ok (.pair 0 2) := rfl
-    simp only [equalB, equal, he, bind_ok, Bool.false_eq_true, if_false, g1, g2, hP, bind_diverge]
+    simp only [Pinned.equal, he, bind_ok, Bool.false_eq_true, if_false, g1, g2, hP]
+
+/-- … where the repaired `equal?` answers on the same witnesses: the two one-element cycles `(1 1 1 …)` at
+    cells 1 and 2 are equal (two levels: the second time round the loop meets the locations `(1, 2)`
+    again), and so are the one-element cycle and the two-element cycle `(1 1 1 …)` through cells 3, 4
+    (R7RS 6.1: the unfoldings are the same infinite list) -/
+theorem equal_circular_terminates :
+    equalB 3 circ [.ptr 2, .ptr 1] = .ok (circ, .bool true) ∧
+    equalB 4 circ [.ptr 3, .ptr 1] = .ok (circ, .bool true) ∧
+    equalB 4 circ [.ptr 4, .ptr 3] = .ok (circ, .bool true) := ⟨rfl, rfl, rfl⟩
+
+/-- car-circular pairs (cells 2, 3: `#0=(#0# . ())`), self-containing vectors (cells 4, 5: `#0=#(#0# 2)`)
+    and two lists that differ behind a cycle-free prefix (cells 7, 8: `(2)` against `(#0=(#0#))`) -/
+def circ2 : Store :=
+  { cells := [.num 1, .nil, .pair 2 1, .pair 3 1, .vec 0, .vec 1, .num 2, .pair 6 1, .pair 2 1],
+    vecs := [[.ptr 4, .num 2], [.ptr 5, .num 2]], strs := [] }
+
+theorem equal_circular_terminates_car_vec :
+    equalB 4 circ2 [.ptr 3, .ptr 2] = .ok (circ2, .bool true) ∧
+    equalB 4 circ2 [.ptr 5, .ptr 4] = .ok (circ2, .bool true) ∧
+    equalB 4 circ2 [.ptr 8, .ptr 7] = .ok (circ2, .bool false) := ⟨rfl, rfl, rfl⟩
+
+/-- **T06.3, `equal?` after `dfd9e81`: termination on EVERY store.** For every store of the shape of a real
+    heap (`Store.Shaped`: no heap cell is itself a reference, a vector slot holds a value) — of any size,
+    circular or not — and any two values, `equalFuel s = |cells|² · (maxVecLen + 5) + 1` levels of the three
+    mutually recursive loops are never exhausted: every level either records a pair of heap locations that
+    was not in the set before (there are `|cells|²`) or is one of at most `maxVecLen + 5` levels between
+    two records (`Lemmas/EqualTotal.lean`). The driver passes `max (fuelOf s) (equalFuel s)`. -/
+theorem equal_total (hsh : s.Shaped) {l r : VCell} (hl : l.isValue = true) (hr : r.isValue = true) {fuel : Nat}
+    (hf : equalFuel s ≤ fuel) : equal fuel s l r ≠ .diverge :=
+  Marwood.Store.equal_total hsh hl hr hf
+
+/-- the builtin on any argument list of values: never out of fuel; on a well-formed store (so: no panic
+    either, `equalB_noPanic`) it therefore answers a value or an error — T06.3 and T06.2 together -/
+theorem equalB_terminates (hsh : s.Shaped) (hs : s.WF) (hv : ∀ v ∈ args, v.isValue = true)
+    (ha : ∀ v ∈ args, VCell.Valid s v) {fuel : Nat} (hf : equalFuel s ≤ fuel) :
+    (∃ r, equalB fuel s args = .ok r) ∨ (∃ e, equalB fuel s args = .err e) := by
+  have hp := equalB_noPanic fuel hs ha
+  have hd : equalB fuel s args ≠ .diverge := by
+    unfold equalB
+    split
+    · rename_i a b
+      exact bind_ne_diverge (Marwood.Store.equal_total hsh (hv b (by simp)) (hv a (by simp)) hf) (fun _ _ => by simp)
+    · simp
+  cases h : equalB fuel s args with
+  | ok r => exact .inl ⟨r, rfl⟩
+  | err e => exact .inr ⟨e, rfl⟩
+  | panic m => exact absurd h (hp m)
+  | diverge => exact absurd h hd
+
+/-- the hypotheses are satisfiable on the circular witnesses -/
+theorem circ_shaped : circ.Shaped ∧ circ2.Shaped := by
+  refine ⟨⟨?_, ?_⟩, ⟨?_, ?_⟩⟩
+  · intro c hc
+    simp only [circ, List.mem_cons, List.mem_nil_iff, or_false] at hc
+    rcases hc with rfl | rfl | rfl | rfl | rfl <;> rfl
+  · intro xs hxs; simp [circ] at hxs
+  · intro c hc
+    simp only [circ2, List.mem_cons, List.mem_nil_iff, or_false] at hc
+    rcases hc with rfl | rfl | rfl | rfl | rfl | rfl | rfl | rfl | rfl <;> rfl
+  · intro xs hxs x hx
+    simp only [circ2, List.mem_cons, List.mem_nil_iff, or_false] at hxs
+    rcases hxs with rfl | rfl <;> simp only [List.mem_cons, List.mem_nil_iff, or_false] at hx <;>
+      rcases hx with rfl | rfl <;> rfl
+
+example : equal (equalFuel circ) circ (.ptr 1) (.ptr 2) ≠ .diverge :=
+  equal_total circ_shaped.1 rfl rfl (Nat.le_refl _)
 
 /-- **T06.3, `list?` after `3d7bbb6`: termination on EVERY store.** For every well-formed store — of any
     size, circular or not — and every valid argument, `2·|cells| + 2` iterations of the repaired loop
